@@ -933,3 +933,15 @@ LIFT_LIGHT_RULE = (' Stage lift_light: the light-client behaviours replayed on l
 for _p, _acts in (('C07', ['block']), ('C08', ['block', 'undoblock'])):
     PLAN[_p]['stages'] = (lambda f, a: (lambda tier, seed: f(tier, seed) + [lift_light(tier, a)]))(PLAN[_p]['stages'], _acts)
     PLAN[_p]['rule'] += LIFT_LIGHT_RULE
+
+
+# --------------------------------------------------------------------------- C02: provability of what a partial forest remembers
+_c02p = PLAN['C02']['stages']
+PLAN['C02']['stages'] = lambda tier, seed: _c02p(tier, seed) + (
+    [partial('partial_all', ALLP, 4, 2, stack=1, und=1, fr=1, last=True)] if tier == 'quick' else
+    [partial('partial_all', ALLP, 5, 3, stack=2, und=2, fr=1)])
+PLAN['C02']['rule'] += (' Partial forests (spec/Partial.tla, all call kinds incl. refused blocks): after every call the instance must prove '
+                        'everything it remembers - all together (exact canonical proof) and each leaf alone (verified) - and a proof handed '
+                        'out earlier must not change during later calls.')
+PLAN['C02']['bounds'] = {'quick': PLAN['C02']['bounds']['quick'] + '; partial forests n<=4, all call kinds',
+                         'thorough': PLAN['C02']['bounds']['thorough'] + '; partial forests n<=5, undo depth 2'}
